@@ -506,6 +506,20 @@ func main() {
 	claimed, discharged := 0, 0
 	var samples []map[string]interface{}
 	vacuityFail := 0
+	// replayStale: an obligation of a stale unit for which a replay template exists is tried on the real code
+	replayStale := func(n string) (string, bool) {
+		l := &logical{Name: n, Kind: "stale", Status: "stale-contract"}
+		confirmed, info := tryReplay(eng, prop, l, seed)
+		if !confirmed {
+			return "", false
+		}
+		os.MkdirAll(replayDir, 0o755)
+		file := filepath.Join(replayDir, reUnsafe.ReplaceAllString(n, "_")+".json")
+		data, _ := json.MarshalIndent(map[string]interface{}{"property": prop, "obligation": n, "status": "stale contract, replay confirmed",
+			"reason": "the unit's contract is stale on this tree (undecided by proof); the recorded replay of this obligation fails on the real code", "replay": info}, "", " ")
+		os.WriteFile(file, append(data, '\n'), 0o644)
+		return fmt.Sprintf("VIOLATION property=%s replay=%s", prop, file), true
+	}
 	for _, n := range names {
 		l := byName[n]
 		if l.Kind == "cover" {
@@ -570,7 +584,12 @@ func main() {
 		}
 		if staleUnit {
 			// the unit's contract could not be evaluated completely: what it produced before the
-			// engine stopped is not decisive
+			// engine stopped is not decisive - unless a recorded replay of this very obligation fails on the
+			// real code (then the failing input is the evidence, whatever the state of the contract)
+			if v, ok := replayStale(n); ok {
+				violations = append(violations, v)
+				continue
+			}
 			undecided = append(undecided, n+" (stale contract)")
 			continue
 		}
@@ -604,6 +623,11 @@ func main() {
 				}
 			}
 			if stale {
+				if v, ok := replayStale(n); ok {
+					claimed++
+					violations = append(violations, v)
+					continue
+				}
 				staleObls = append(staleObls, n)
 				continue
 			}
